@@ -27,6 +27,9 @@ def run(ctx):
     broken = []
     if not ok:
         broken.append({"kind": "obligation", "name": "translator go/extract routing", "detail": log[-1500:]})
+    ok2, log2 = ctx.extract("mappings", ["lean/KafkaVerif/Gen/Mappings.lean"])
+    if not ok2:
+        broken.append({"kind": "obligation", "name": "translator go/extract mappings", "detail": log2[-1500:]})
     res = ctx.prove(MODULE)
     if not res["ok"]:
         broken.append({"kind": "obligation", "theorems": res["failed"], "detail": res["reasons"][:10]})
